@@ -165,9 +165,20 @@ func genLearn(g *G) (of.Action, *spec.Node) {
 		spec.U("fin_idle_timeout", uint64(a.FinIdleTimeout)), spec.U("fin_hard_timeout", uint64(a.FinHardTimeout)))
 	k := g.ListLen("nspecs", 12)
 	used := 32
+	// a caller that sizes or logs the action while it is still collecting specs (the spec list is an exported
+	// slice the caller appends to): what was computed for the shorter list must not stick
+	midway := -1
+	if k >= 2 && g.Chance("learn_sized_midway", 1, 4) {
+		midway = g.Int("learn_midway_at", 1, k-1)
+	}
 	for i := 0; i < k; i++ {
 		if used > g.Budget-300 {
 			break
+		}
+		if i == midway {
+			a.Len()
+			a.MarshalBinary()
+			g.Label("learn_encoded_before_its_last_specs")
 		}
 		l := fmt.Sprintf("spec%d_", i)
 		nb := g.Int(l+"nbits", 1, 1023)
